@@ -4,6 +4,7 @@
 cd /verif
 one() {
   d=$1; n=$(basename $d); pid=${n%%-*}
+  if /venv/bin/python -c "import json,sys; sys.exit(0 if json.load(open('$d/meta.json')).get('superseded') else 1)"; then echo "SEEDED $n superseded by a later repair: not re-run"; return; fi
   also=$(/venv/bin/python -c "
 import json,sys
 m=json.load(open('$d/meta.json'))
